@@ -17,7 +17,7 @@ from __future__ import annotations
 import random
 
 from .. import gen as G
-from ..facts import V, analyze, entry_name, pre_aborted, rejected
+from ..facts import V, analyze, entry_name, final_failure_candidates, pre_aborted, rejected
 from . import common
 
 ID = "C11"
@@ -121,8 +121,6 @@ def oracle(scn, trace):
             bad.append("value set on a failed outcome")
         if o["attempts"] != len(cf.attempts):
             bad.append(f"attempts {o['attempts']} != invocations {len(cf.attempts)}")
-        classified = [i for i in infos if i.recorded]
-        fin = classified[-1] if classified else None
         if noretry:
             a = last.a if last else None
             if a is not None and a.kind == "exc":
@@ -138,26 +136,34 @@ def oracle(scn, trace):
                 holds.add("ABORTED")
             if o["stop_reason"] not in holds:
                 bad.append(f"stop_reason {o['stop_reason']} does not hold (holds: {sorted(holds)})")
-            if fin is None:
-                for f in ("last_class", "last_exception", "last_result", "cause"):
-                    if o[f] is not None:
-                        bad.append(f"{f} set although no failure was classified")
-            else:
+            def describe_problems(fin):
+                probs = []
+                if fin is None:
+                    for f in ("last_class", "last_exception", "last_result", "cause"):
+                        if o[f] is not None:
+                            probs.append(f"{f} set although no failure was recorded")
+                    return probs
                 a = fin.a
-                if o["last_class"] != a.fclass:
-                    bad.append(f"last_class {o['last_class']} != final failure class {a.fclass}")
+                # an exception whose classification was pre-empted by the abort poll has no observable class
+                if a.fclass is not None and o["last_class"] != a.fclass:
+                    probs.append(f"last_class {o['last_class']} != final failure class {a.fclass}")
                 if o["cause"] != a.cause:
-                    bad.append(f"cause {o['cause']} != {a.cause}")
+                    probs.append(f"cause {o['cause']} != {a.cause}")
                 if a.cause == "exception":
                     if o["last_exception"] != a.obj:
-                        bad.append(f"last_exception {o['last_exception']} is not the final exception {a.obj}")
+                        probs.append(f"last_exception {o['last_exception']} is not the final exception {a.obj}")
                     if o["last_result"] is not None:
-                        bad.append("last_result set on an exception-caused failure")
+                        probs.append("last_result set on an exception-caused failure")
                 else:
                     if o["last_result"] != a.obj:
-                        bad.append(f"last_result {o['last_result']} is not the final result {a.obj}")
+                        probs.append(f"last_result {o['last_result']} is not the final result {a.obj}")
                     if o["last_exception"] is not None:
-                        bad.append("last_exception set on a result-caused failure")
+                        probs.append("last_exception set on a result-caused failure")
+                return probs
+
+            alternatives = [describe_problems(c) for c in final_failure_candidates(infos)]
+            if all(alternatives):           # every acceptable reading has a problem: report the primary one's
+                bad.extend(alternatives[0])
             sched = last is not None and last.decision == "D"
             if sched:
                 if o["next_sleep_s"] is None or o["next_sleep_s"] != last.applied:
